@@ -243,6 +243,7 @@ pub fn start_job(command: Arc<Command>) -> (Job, JoinHandle<()>) {
 								}
 								Control::ContinueTryGracefulRestart => {
 									trace!("continuing a graceful try-restart");
+									on_end_restart = None;
 
 									if let CommandState::Running { child, started, .. } = &mut command_state {
 										trace!("stopping child forcefully");
